@@ -117,6 +117,14 @@ def Accessor.faithful (a : Accessor) : Bool :=
   (if a.name.startsWith "Get" then a.reads == [a.field] && a.writes == []
    else a.writes == [a.field] && a.reads == [] && a.fromParam)
 
+/-- a Keeper method `IterateX(ctx, cb)`: `walksAll` = its body is `k.coll.Walk(ctx, nil, cb)` and the
+    return of that call's error, nothing else -/
+structure Iterator where
+  name : String
+  coll : String
+  walksAll : Bool
+  deriving DecidableEq, Repr
+
 /-! ### C15: genesis coverage -/
 
 structure CollectionRow where
